@@ -740,6 +740,9 @@ pub fn run(ctx: &mut Ctx) {
   if which == "all" || which == "gk2d" {
     s_gk2d(ctx, cap);
   }
+  if which == "all" || which == "large" {
+    s_large_params(ctx, cap);
+  }
   ctx.dist.insert("worker/threads".into(), WORKER_SPAWNS.load(Ordering::Relaxed) as u64);
 }
 
@@ -1106,7 +1109,7 @@ fn s_methods_1d(ctx: &mut Ctx, cap: Duration) {
     let f = if tolerance_driven(&m) { f.normalised(a, b) } else { f };
     let sc = f.scale(a, b);
     let exact = f.exact(a, b);
-    let inp = format!("{} a={:e} b={:e} kl={:.3} alias={:.3e} f={}", method_name(&m), a, b, f.kl(a, b), alias_ratio(f.kl(a, b), method_tol(&m), 1.), f.describe());
+    let inp = format!("{} a={:e} b={:e} kl={:.3} klmin={:.3} alias={:.3e} f={}", method_name(&m), a, b, f.kl(a, b), f.kl(a, b), alias_ratio(f.kl(a, b), method_tol(&m), 1.), f.describe());
     let (r, t, evals) = call1(cap, m, &f, a, b);
     let inp = format!("{} spp={:.2}", inp, spp(evals, f.kl(a, b)));
     ctx.count(&format!("s1d/{}/{}", short(&m), r.tag()));
@@ -1156,7 +1159,8 @@ fn s_methods_1d(ctx: &mut Ctx, cap: Duration) {
         .min(alias_ratio(f.kl(a, b), method_tol(&m), al.norm()))
         .min(alias_ratio(g.kl(a, b), method_tol(&m), 1.))
         .min(alias_ratio(g.kl(a, b), method_tol(&m), be.norm()));
-      let inp = format!("{} a={:e} b={:e} kl={:.3} alias={:.3e} f={}", method_name(&m), a, b, f.kl(a, b).max(g.kl(a, b)), al_ratio, f.describe());
+      // (`klmin`: the least oscillatory of the integrands involved — finding D40 is about the constant ones)
+      let inp = format!("{} a={:e} b={:e} kl={:.3} klmin={:.3} alias={:.3e} f={}", method_name(&m), a, b, f.kl(a, b).max(g.kl(a, b)), f.kl(a, b).min(g.kl(a, b)), al_ratio, f.describe());
       let (rg, _, eg) = call1(cap, m, &g, a, b);
       let (f2, g2) = (f.clone(), g.clone());
       let (rc, _) = call1_fn(cap, m, move |x| al * f2.eval(x) + be * g2.eval(x), a, b);
@@ -1535,8 +1539,8 @@ fn acc1(ctx: &mut Ctx, cap: Duration, m: Integrator, f: &I1, a: f64, b: f64, fre
   let route = if free { "free-fn" } else { "integrator" };
   let (r, t, evals) = if free { call1_free(cap, m, &f, a, b) } else { call1(cap, m, &f, a, b) };
   let inp = format!(
-    "{} route={} ctx={} a={:e} b={:e} kl={:.3} alias={:.3e} f={}",
-    method_name(&m), route, tag, a, b, f.kl(a, b), alias_ratio(f.kl(a, b), method_tol(&m), 1.), f.describe()
+    "{} route={} ctx={} a={:e} b={:e} kl={:.3} klmin={:.3} alias={:.3e} f={}",
+    method_name(&m), route, tag, a, b, f.kl(a, b), f.kl(a, b), alias_ratio(f.kl(a, b), method_tol(&m), 1.), f.describe()
   );
   ctx.count(&format!("{}/{}/{}", tag, short(&m), r.tag()));
   if matches!(r, Res::Timeout) {
@@ -1822,3 +1826,229 @@ fn s_adaptive2d_depth(ctx: &mut Ctx, cap: Duration) {
     }
   }
 }
+
+// ------------------------------------------------------------------ the large end of the parameter ranges
+
+/// `kl` snapped to an odd multiple of π plus a small jitter: `|sin(kl/2)| ≥ 0.9`, so the integral of `exp(ikx)` over
+/// the interval is not small against `2/|k|` (the relative-tolerance methods have something to be relative to)
+fn snap_kl(r: &mut Rng, kl: f64) -> f64 {
+  let n = (kl / std::f64::consts::TAU).floor().max(0.);
+  n * std::f64::consts::TAU + std::f64::consts::PI + r.range(-0.4, 0.4)
+}
+
+/// One separable case `g(x)·h(y)` at the large end of a method's parameters. The two 1-D factors are integrated FIRST
+/// with the very same `Integrator` value. Where both are accepted and within the requested tolerance / textbook bound,
+/// the statement's 2-D clauses are checked with the same value: accepted (no panic) — `C12.accept`; finishes under
+/// the cap — `C12.time`; equals the product of the two 1-D results — `C12.separable`; equals the closed form —
+/// `C12.accuracy`. `need` = (evaluations the factor needed under a far larger budget, evaluations one unit of the
+/// budget buys): when that shows the case's budget to be sufficient, the 1-D call itself must succeed.
+fn large_case(ctx: &mut Ctx, cap: Duration, m: Integrator, g: &I1, h: &I1, ax: f64, bx: f64, ay: f64, by: f64, fast: &str, budget_ok: Option<bool>) {
+  let (g, h) = if tolerance_driven(&m) { (g.normalised(ax, bx), h.normalised(ay, by)) } else { (g.clone(), h.clone()) };
+  let f = I2::Sep(g.clone(), h.clone());
+  let sc = f.scale(ax, bx, ay, by);
+  let (sg, sh) = (g.scale(ax, bx), h.scale(ay, by));
+  let tol = method_tol(&m);
+  let base = format!(
+    "{} ctx=large fast={} ax={:e} bx={:e} ay={:e} by={:e} kl={:.3} klx={:.3} kly={:.3}",
+    method_name(&m), fast, ax, bx, ay, by, g.kl(ax, bx).max(h.kl(ay, by)), g.kl(ax, bx), h.kl(ay, by)
+  );
+  // ---- 1-D, same Integrator value
+  let mut ok1 = true;
+  let mut v1 = [C::new(0., 0.); 2];
+  let mut al1 = [0.; 2];
+  let mut ev1 = [0usize; 2];
+  let mut tags = [String::new(), String::new()];
+  for (j, (f1, a, b)) in [(&g, ax, bx), (&h, ay, by)].into_iter().enumerate() {
+    let (r, t, evals) = call1(cap, m, f1, a, b);
+    let axis = if j == 0 { "x" } else { "y" };
+    let inp = format!(
+      "{} axis={} a={:e} b={:e} alias={:.3e} f={} evals={}",
+      base.replacen(&format!("kl={:.3}", g.kl(ax, bx).max(h.kl(ay, by))), &format!("kl={:.3}", f1.kl(a, b)), 1),
+      axis, a, b, alias_ratio(f1.kl(a, b), tol, f1.scale(a, b)), f1.describe(), evals
+    );
+    ctx.count(&format!("large/{}/1d/{}", short(&m), r.tag()));
+    tags[j] = r.tag().to_string();
+    ev1[j] = evals;
+    match r {
+      Res::Timeout => {
+        ctx.s("C12.time", false, &format!("{}/large/timeout", short(&m)), &format!("{} cap_s={} elapsed_s={:.2}", inp, cap.as_secs(), t));
+        ok1 = false;
+      }
+      Res::Panic => {
+        // a budget shown to be sufficient (the same integral under a far larger budget used fewer evaluations than
+        // this budget buys) must be accepted; otherwise the 1-D call legitimately ran out of its budget: skipped
+        if budget_ok == Some(true) {
+          ctx.s("C12.accuracy", false, &format!("{}/large/inaccurate/panic", short(&m)), &format!("{} budget=sufficient", inp));
+        } else {
+          ctx.count(&format!("large/{}/1d-budget-exhausted", short(&m)));
+        }
+        ok1 = false;
+      }
+      Res::Val(v) => {
+        let allow = allowance1(&m, f1, a, b, evals);
+        let s1 = f1.scale(a, b);
+        let err = (v - f1.exact(a, b)).norm();
+        let good = err <= 1e-12 * s1 + allow;
+        ctx.s("C12.accuracy", good, &fail_sig(&m, "inaccurate", &r), &format!("{} relerr={:e} allow={:e}", inp, err / s1, allow / s1));
+        ok1 = ok1 && good;
+        v1[j] = v;
+        al1[j] = allow;
+      }
+    }
+  }
+  if !ok1 {
+    ctx.count(&format!("large/{}/2d-skipped", short(&m)));
+    return;
+  }
+  // ---- 2-D, same Integrator value
+  let (r2, t2, ev2) = call2(cap, m, &f, ax, bx, ay, by);
+  ctx.count(&format!("large/{}/2d/{}", short(&m), r2.tag()));
+  let inp = format!(
+    "{} alias={:.3e} evals={} evals1d={}/{} g={} h={}",
+    base, alias_ratio_sep(&g, &h, ax, bx, ay, by, tol), ev2, ev1[0], ev1[1], g.describe(), h.describe()
+  );
+  ctx.s(
+    "C12.accept",
+    !matches!(r2, Res::Panic),
+    &format!("accept/{}/large/2d-panic", short(&m)),
+    &format!("{} ok1d={}/{} ok2d={}", inp, tags[0], tags[1], r2.tag()),
+  );
+  ctx.s("C12.time", !matches!(r2, Res::Timeout), &format!("{}2d/large/timeout", short(&m)), &format!("{} cap_s={} elapsed_s={:.2}", inp, cap.as_secs(), t2));
+  let v2 = match r2 {
+    Res::Val(v) => v,
+    _ => return,
+  };
+  let (alg, alh) = (al1[0], al1[1]);
+  let per_axis_evals = (ev2 as f64).sqrt().round() as usize;
+  let (alg2, alh2) = match m {
+    Integrator::Simpson { .. } => (allowance1(&m, &g, ax, bx, per_axis_evals), allowance1(&m, &h, ay, by, per_axis_evals)),
+    _ => (alg, alh),
+  };
+  let allow2 = if tolerance_driven(&m) { tol * ((bx - ax).abs() + 1.) * sc.max(1.) } else { alg2 * sh + alh2 * sg + alg2 * alh2 };
+  let budget = 1e-12 * sc + allow2 + alg * sh + alh * sg + alg * alh;
+  let diff = (v2 - v1[0] * v1[1]).norm();
+  ctx.s("C12.separable", diff <= budget, &format!("{}2d/not-separable", short(&m)), &format!("{} reldiff={:e} budget={:e}", inp, diff / sc, budget / sc));
+  let err = (v2 - f.exact(ax, bx, ay, by)).norm();
+  ctx.s("C12.accuracy", err <= 1e-12 * sc + allow2, &format!("{}2d/inaccurate", short(&m)), &format!("{} relerr={:e} allow={:e}", inp, err / sc, allow2 / sc));
+}
+
+/// The large end of every method's parameters — iteration / recursion budgets 1000…5000 (and the powers of two around
+/// them), tolerances 1e-8…1e-12, 48–64 Gauss–Legendre nodes, 390–400 Simpson divisions — on separable `exp×exp`
+/// integrands with the fast oscillation in the inner or in the outer variable, strong enough that the fast factor
+/// really uses most of the budget (Gauss–Kronrod: 55–80 % of `max_depth` bisections, measured on the 1-D factor
+/// under a three times larger budget).
+fn s_large_params(ctx: &mut Ctx, cap: Duration) {
+  let reps = if ctx.thorough { 4 } else { 1 };
+  let phase = |r: &mut Rng| C::from_polar(1., r.range(0., 6.28));
+  let rect = |r: &mut Rng| match r.below(3) {
+    0 => (0., 1., 0., 1.),
+    1 => (-1., 1., 0., 2.),
+    _ => (r.range(-1.5, -0.5), r.range(0.5, 1.5), r.range(-2., -1.), r.range(0.5, 1.5)),
+  };
+  // ---- Gauss–Kronrod. Measured on the unchanged tree: one quad-rs iteration costs 46 evaluations, every 1-D integral
+  // needs at least 62 iterations whatever the tolerance, `exp(ikx)` with k(b−a) = 6 000 / 8 000 / 12 000 needs
+  // 1 022 / 1 742 / 2 046; the outer integral of a nested call with a slow outer factor takes 23 evaluations.
+  // The budget of a case is DERIVED from the need N of its fast factor (measured in 1-D under a budget of 20 000):
+  // max_depth = N / (0.55 … 0.92), i.e. 1 100 … 6 000 for the strongly oscillatory ones — the factor uses most of it.
+  // Fast INNER factor: 23 × 46 N evaluations (under 2 s). Fast OUTER factor: 46 N × 2 921 — one case, thorough only.
+  let n_gk = if ctx.thorough { 13 } else { 4 };
+  for i in 0..n_gk {
+    let fast_inner = i < 12;
+    let tolerance = *ctx.rng.pick(&[1e-8, 1e-9, 1e-10, 1e-11, 1e-12]);
+    let (ax, bx, ay, by) = rect(&mut ctx.rng);
+    let raw = if !fast_inner {
+      ctx.rng.range(300., 900.)
+    } else if i % 4 == 3 {
+      ctx.rng.log_range(1., 3000.)
+    } else {
+      ctx.rng.log_range(6000., 16000.)
+    };
+    let fast_kl = snap_kl(&mut ctx.rng, raw);
+    let slow_raw = ctx.rng.range(0., 12.);
+    let slow_kl = snap_kl(&mut ctx.rng, slow_raw);
+    let (klx, kly) = if fast_inner { (slow_kl, fast_kl) } else { (fast_kl, slow_kl) };
+    let g = I1::Exp { k: klx / (bx - ax) * if ctx.rng.coin() { 1. } else { -1. }, amp: phase(&mut ctx.rng) };
+    let h = I1::Exp { k: kly / (by - ay) * if ctx.rng.coin() { 1. } else { -1. }, amp: phase(&mut ctx.rng) };
+    // the need of the fast factor
+    let (ff, fa, fb) = if fast_inner { (h.normalised(ay, by), ay, by) } else { (g.normalised(ax, bx), ax, bx) };
+    let (rb, _, eb) = call1(cap, Integrator::GaussKonrod { tolerance, max_depth: 20000 }, &ff, fa, fb);
+    if !matches!(rb, Res::Val(_)) {
+      ctx.count(&format!("large/gk/need-unknown/{}", rb.tag()));
+      continue;
+    }
+    let need = eb as f64 / 46.;
+    let frac = ctx.rng.range(0.55, 0.92);
+    let max_depth = (need / frac).ceil() as usize + 2;
+    ctx.count(&format!("large/gk/need/{:02}00+", (need / 100.) as usize));
+    ctx.count(&format!("large/gk/max_depth/{:02}00+", max_depth / 100));
+    let m = Integrator::GaussKonrod { tolerance, max_depth };
+    large_case(ctx, cap, m, &g, &h, ax, bx, ay, by, if fast_inner { "inner" } else { "outer" }, Some(true));
+  }
+  // ---- adaptive Simpson: recursion budgets far above what is needed (a cap only), the powers of two and 10^k
+  let adepths = [256usize, 1000, 1024, 2000, 4096, 5000, 65536, 512, 3000, 1 << 32];
+  for i in 0..4 * reps {
+    let max_depth = adepths[(i + ctx.seed as usize) % adepths.len()];
+    let tolerance = *ctx.rng.pick(&[1e-8, 1e-9, 1e-10, 1e-11]);
+    let m = Integrator::AdaptiveSimpson { tolerance, max_depth };
+    let (ax, bx, ay, by) = rect(&mut ctx.rng);
+    let fast_inner = i % 2 == 0;
+    let fast_kl = ctx.rng.range(120., 200.);
+    let slow_kl = ctx.rng.range(0.5, 3.);
+    let (klx, kly) = if fast_inner { (slow_kl, fast_kl) } else { (fast_kl, slow_kl) };
+    let g = I1::Exp { k: klx / (bx - ax), amp: phase(&mut ctx.rng) };
+    let h = I1::Exp { k: -kly / (by - ay), amp: phase(&mut ctx.rng) };
+    large_case(ctx, cap, m, &g, &h, ax, bx, ay, by, if fast_inner { "inner" } else { "outer" }, None);
+  }
+  // ---- correspondence with the model at the same recursion budgets (fuel = max_depth): 1-D with the evaluation count, 2-D
+  for i in 0..3 * reps {
+    let max_depth = adepths[(i + 3 + ctx.seed as usize) % adepths.len()];
+    let (ax, bx, ay, by) = rect(&mut ctx.rng);
+    let f = I1::Exp { k: ctx.rng.range(40., 150.) / (bx - ax), amp: phase(&mut ctx.rng) };
+    let s = f.scale(ax, bx);
+    let eps = *ctx.rng.pick(&[1e-8, 1e-10, 1e-11]) * s;
+    let cnt = AtomicUsize::new(0);
+    let r = guard(|| {
+      Integrator::AdaptiveSimpson { tolerance: eps, max_depth }.integrate(
+        |x| {
+          cnt.fetch_add(1, Ordering::Relaxed);
+          f.eval(x)
+        },
+        ax,
+        bx,
+      )
+    });
+    let out = match r {
+      Some(c) => format!("{} {} {}", fl(c.re / s), fl(c.im / s), cnt.load(Ordering::Relaxed)),
+      None => "PANIC".into(),
+    };
+    ctx.count("large/adaptive/k");
+    ctx.k("adaptive", &format!("{} {} {} {} {} {}", fl(ax), fl(bx), fl(eps), max_depth, fl(s), f.wire()), &out);
+    let f2 = I2::Sep(I1::Exp { k: ctx.rng.range(1., 4.), amp: phase(&mut ctx.rng) }, I1::Exp { k: -ctx.rng.range(8., 20.) / (by - ay), amp: phase(&mut ctx.rng) });
+    let s2 = f2.scale(ax, bx, ay, by);
+    let eps2 = *ctx.rng.pick(&[1e-6, 1e-7, 1e-8]) * s2;
+    let ff = f2.clone();
+    let r2 = guard(move || Integrator::AdaptiveSimpson { tolerance: eps2, max_depth }.integrate2d(|x, y| ff.eval(x, y), ax, bx, ay, by));
+    ctx.count("large/adaptive2d/k");
+    ctx.k(
+      "adaptive2d",
+      &format!("{} {} {} {} {} {} {} {}", fl(ax), fl(bx), fl(ay), fl(by), fl(eps2), max_depth, fl(s2), f2.wire()),
+      &outc(r2, s2),
+    );
+  }
+  // ---- Clenshaw–Curtis at the tight tolerances, Gauss–Legendre with 48–64 nodes, Simpson with 390–400 divisions
+  for i in 0..6 * reps {
+    let (m, fast_kl) = match i % 3 {
+      0 => (Integrator::ClenshawCurtis { tolerance: *ctx.rng.pick(&[1e-8, 1e-9, 1e-10, 1e-11, 1e-12]) }, ctx.rng.range(20., 60.)),
+      1 => (Integrator::GaussLegendre { degree: ctx.rng.between(48, 64) }, ctx.rng.range(20., 50.)),
+      _ => (Integrator::Simpson { divs: ctx.rng.between(390, 400) }, ctx.rng.range(20., 60.)),
+    };
+    let (ax, bx, ay, by) = rect(&mut ctx.rng);
+    let fast_inner = (i / 3) % 2 == 0;
+    let slow_kl = ctx.rng.range(0.5, 3.);
+    let (klx, kly) = if fast_inner { (slow_kl, fast_kl) } else { (fast_kl, slow_kl) };
+    let g = I1::Exp { k: klx / (bx - ax), amp: phase(&mut ctx.rng) };
+    let h = I1::Exp { k: -kly / (by - ay), amp: phase(&mut ctx.rng) };
+    large_case(ctx, cap, m, &g, &h, ax, bx, ay, by, if fast_inner { "inner" } else { "outer" }, None);
+  }
+}
+
